@@ -2148,14 +2148,29 @@ pub(crate) fn cleanup_stale_versioned_index(
 		let empty: &[u8] = &[];
 		let iter = guard.range(empty..)?;
 
+		// Versions of one user key are adjacent, newest first. When the entry that
+		// goes is a REPLACE, the versions behind it go with it: they are erased by
+		// it, and some of them (stored inline, or in a newer VLog file) would
+		// otherwise outlive it and reappear in history once nothing hides them.
+		let mut dropping_key: Option<Vec<u8>> = None;
+
 		for entry in iter {
 			let (key, value) = entry?;
+			let ikey = crate::InternalKeyRef::from_encoded(&key);
+			if dropping_key.as_deref() == Some(ikey.user_key()) {
+				stale_keys.push(key.to_vec());
+				continue;
+			}
+			dropping_key = None;
 			// Check if this entry has a VLog pointer to a deleted file
 			if let Ok(loc) = ValueLocation::decode(&value) {
 				if loc.is_value_pointer() {
 					if let Ok(ptr) = ValuePointer::decode(&loc.value) {
 						if ptr.file_id < min_valid_file_id {
 							stale_keys.push(key.to_vec());
+							if ikey.is_replace() {
+								dropping_key = Some(ikey.user_key().to_vec());
+							}
 						}
 					}
 				}
